@@ -139,7 +139,7 @@ static void str_case(long k, fcase *c) {
         c->str_len = c->str_unterm ? (size_t)SP[pi] : sl;
         put_dir(c->fmt, sizeof c->fmt, SF[fi], SW[wi], SP[pi], "", 's', c, 0, 0);
         c->strarg = c->na; add_g(c, (long long)(intptr_t)g_strobj);
-        snprintf(c->cls, sizeof c->cls, "%%s|flags='%s'|%s|%s|%s", SF[fi], wcls(SW[wi]), SP[pi] < 0 ? "p-none" : "p-set", sl == 0 ? "empty" : sl > 20 ? "long" : (unsigned char)s[2] > 127 ? "utf8" : "short");
+        snprintf(c->cls, sizeof c->cls, "%%s|flags='%s'|%s|%s|%s", SF[fi], wcls(SW[wi]), SP[pi] < 0 ? "p-none" : "p-set", sl == 0 ? "empty" : sl > 20 ? "long" : (sl > 2 && (unsigned char)s[2] > 127) ? "utf8" : "short");
     } else {
         k -= 6L * 3 * 5 * 6; int ci = (int)(k % 4); k /= 4; int wi = (int)(k % 3); k /= 3; int fi = (int)(k % 4);
         static const int CV[] = {'A', 0, 0xE9, '%'}; static const char *CF[] = {"", "-", "0", "-0"};
